@@ -151,17 +151,23 @@ def cleanWorkspace(spec):
 def getDependencies(ir):
     """Gather all package steps that are build dependencies of the built
     packages."""
-    ret = set()
+    # Steps compare equal if their variant-id is equal. The same variant may
+    # have been built in different sandboxes, though. These are different
+    # dependencies (workspaces, Jenkins jobs) so index them by workspace.
+    ret = {}
+    def add(steps):
+        for s in steps: ret.setdefault(s.getWorkspacePath(), s)
     for package in (s.getPackage() for s in ir.getRoots()):
-        ret.update(package.getPackageStep().getAllDepSteps())
+        add(package.getPackageStep().getAllDepSteps())
         buildStep = package.getBuildStep()
         if buildStep.isValid():
-            ret.update(buildStep.getAllDepSteps())
+            add(buildStep.getAllDepSteps())
         checkoutStep = package.getCheckoutStep()
         if checkoutStep.isValid():
-            ret.update(checkoutStep.getAllDepSteps())
-    ret.difference_update(ir.getRoots())
-    return [s for s in ret if s.isPackageStep()]
+            add(checkoutStep.getAllDepSteps())
+    for s in ir.getRoots():
+        ret.pop(s.getWorkspacePath(), None)
+    return [s for s in ret.values() if s.isPackageStep()]
 
 def doJenkinsExecute(argv, bobRoot):
     parser = argparse.ArgumentParser(prog="bob _jexec")
